@@ -31,3 +31,16 @@ Qed.
 (* pattern = (true, true, false, false): edges 0-1 and 2-1, a path *)
 Example ex_pattern : map (pattern_of no_graph ex_env ex_flags) [0; 1; 2; 3] = [true; true; false; false].
 Proof. reflexivity. Qed.
+
+(* loop_free is needed: a self-loop is never compared with itself by the
+   encoding, so an active self-loop (a cycle) still has a certificate *)
+Example loop_free_needed :
+  let g := {| nv := 1; edges := [(0, 0)] |} in
+  let A := fun _ : nat => true in
+  wf_graph g = true /\
+  (exists r, ranks_in_range g r = true /\ cert_acyclic g A r = true) /\ ~ forest g A.
+Proof.
+  simpl. split; [reflexivity|]. split.
+  - exists (fun _ => 0%Z). split; reflexivity.
+  - intros H. apply (H 0 0 0 eq_refl eq_refl). apply reach_refl. reflexivity.
+Qed.
